@@ -65,7 +65,7 @@ def overlapping_gene(w, g, new_gid, antisense=False):
 
 
 def rich_world(seed, n_chroms=6, genes_per_chrom=3, groups=3, multimappers=True, reads_per_t=5, hidden_cov=5,
-               unmapped=3, polya_frac=0.5, read_modes=None, extra_len=0, zoo=()):
+               unmapped=3, polya_frac=0.5, read_modes=None, extra_len=0, zoo=(), eqx_every=5):
     """Several chromosomes of distinct lengths, novel (hidden) isoforms on every chromosome, shared-exon and antisense
     genes, paralogs with multi-mapped reads, read-group tags, a few unmapped records."""
     w = World(seed)
@@ -178,6 +178,8 @@ def rich_world(seed, n_chroms=6, genes_per_chrom=3, groups=3, multimappers=True,
     for i, r in enumerate(w.reads):
         r.tags = [("RG", "g%d" % (i % groups))]
         r.file_idx = i % 2
+        if eqx_every and i % eqx_every == 3 and not (r.flag & 4):
+            w.to_eqx(r)          # =/X operations instead of M (minimap2 --eqx, pbmm2)
     return w
 
 
